@@ -1,4 +1,5 @@
 #![allow(unused_parens)]
+pub mod alloc_track;
 pub mod conv;
 pub mod engine;
 pub mod guard;
@@ -6,3 +7,6 @@ pub mod known;
 pub mod props;
 pub mod refmodel;
 pub mod gen;
+
+#[global_allocator]
+static GLOBAL: alloc_track::Counting = alloc_track::Counting;
